@@ -93,6 +93,15 @@ func mutate(rng *rand.Rand, s *S, past []S) {
 				// contended: the alias of another host, or a hostname
 				o := pick(rng, HostPool)
 				hs.Alias = pick(rng, append(AliasPool(o), o))
+				var used []string
+				for _, k := range ks {
+					if k != h && s.Hosts[k].Alias != "" {
+						used = append(used, s.Hosts[k].Alias)
+					}
+				}
+				if len(used) > 0 && rng.Intn(2) == 0 {
+					hs.Alias = pick(rng, used)
+				}
 				if hs.Alias == h {
 					hs.Alias = ""
 				}
